@@ -224,7 +224,7 @@ pub fn c01h_doy_cal(i: &mut In, p: &[i64]) {
   let mut mm = 1;
   while mm < 12 { if mm < m { exp += days_in_month(y, mm); } mm += 1; }
   assert!(k == exp);
-  witness!(y == 1582 && m == 10 && d == 20, "after the gap");
+  witness!(p[0] > 1582 || p[1] < 1582 || (y == 1582 && m == 10 && d == 20), "after the gap (windows containing 1582)");
   witness!(m == 12 && d == 31, "last day of a year");
 }
 
